@@ -23,7 +23,7 @@ if ! (cd "$D/r" && go build ./... 2>&1 | head -5); then echo BUILD-FAIL; fi
 (cd "$D/r" && go vet ./... >/dev/null 2>&1) 
 mkdir -p "$D/v"; cp /verif/known_findings.json "$D/v/" 2>/dev/null
 for P in ${PROPS//,/ }; do
-  OUT=$(IVG_REPO="$D/r" /verif/bin/ivgsa check -property "$P" -verif "$D/v" 2>&1); RC=$?
+  OUT=$(IVG_REPO="$D/r" ${IVGSA:-/verif/bin/ivgsa} check -property "$P" -verif "$D/v" 2>&1); RC=$?
   echo "[$P] rc=$RC $(echo "$OUT" | grep -c -E '^   (VIOLATED|UNDECIDED)') findings: $(echo "$OUT" | grep -E '^   (VIOLATED|UNDECIDED)' | head -3 | cut -c1-160 | tr '\n' '|')"
   [ -n "${MUT_VERBOSE:-}" ] && echo "$OUT" | grep -A3 -E '^   (VIOLATED|UNDECIDED)' | head -40 | cut -c1-400
 done
